@@ -180,7 +180,7 @@ func (e *external) Execute(req *Request) (res *Response) {
 		return BuildErrorResponse(err.Error(), warns...)
 	}
 
-	res, err = UnmarshalResponse(stdout.Bytes())
+	res, err = safeUnmarshalResponse(stdout.Bytes())
 	if err != nil {
 		err = fmt.Errorf(
 			"failed to unmarshal plugin response: %w\nstdout:\n%s\nstderr:\n%s",
@@ -191,6 +191,17 @@ func (e *external) Execute(req *Request) (res *Response) {
 		res.Warnings = append(res.Warnings, e.Name()+" stderr:\n"+warn)
 	}
 	return res
+}
+
+// safeUnmarshalResponse decodes what a plugin wrote to stdout. The bytes are not under our
+// control: a decoder panic on malformed input must become an error, not a crash of thriftgo.
+func safeUnmarshalResponse(bs []byte) (res *Response, err error) {
+	defer func() {
+		if r := recover(); r != nil {
+			res, err = nil, fmt.Errorf("malformed response: %v", r)
+		}
+	}()
+	return UnmarshalResponse(bs)
 }
 
 type SDKPlugin interface {
